@@ -6,6 +6,7 @@ import (
 	"os"
 	"path/filepath"
 	"strings"
+	"time"
 
 	"verif/harness/core"
 	"verif/harness/gen"
@@ -46,6 +47,13 @@ func c06Log(r *rand.Rand, dates []gen.Date, n int) gen.Log {
 		day := gen.Day{Date: dates[r.Intn(len(dates))]}
 		for j := 0; j <= r.Intn(3); j++ {
 			day.Ents = append(day.Ents, gen.Ent{Name: foods[r.Intn(len(foods))], Val: gen.EQty(r)})
+		}
+		if r.Intn(2) == 0 {
+			// notes belong to their day: print shows them, and only under the days that are selected
+			day.Notes = []gen.Note{{Key: "mood", Text: fmt.Sprintf("note %d", i)}}
+			if r.Intn(2) == 0 {
+				day.Notes = append(day.Notes, gen.Note{Text: fmt.Sprintf("plain remark %d", i)})
+			}
 		}
 		log = append(log, day)
 	}
@@ -488,6 +496,8 @@ func runC06(c *core.Ctx) {
 		}
 	}
 	c06SummaryNoToday(c, summaryZones)
+	c06SummaryLastSecond(c, summaryZones)
+	c06NaturalLanguage(c)
 	c06SubSecond(c, [][]string{{"print"}, {"csv", "log"}, {"reg"}, {"report", "quantity"}})
 	dir := filepath.Join(c.Work, "summary")
 	type target struct {
@@ -665,6 +675,116 @@ func c06SubSecond(c *core.Ctx, cmds [][]string) {
 				}
 			}
 		}
+	}
+}
+
+// c06SummaryLastSecond: summary DATE takes the whole calendar day, up to its last instant.
+func c06SummaryLastSecond(c *core.Ctx, zones []string) {
+	dir := filepath.Join(c.Work, "summary-last-second")
+	for li, layout := range []string{"2006/01/02 15:04:05.000", "2006/01/02 15:04:05", "2006/01/02 15:04:05.000000000"} {
+		stamps := []string{"2021/03/04 23:59:59.999", "2021/03/05 00:00:00", "2021/03/05 12:00:00", "2021/03/05 23:59:59", "2021/03/05 23:59:59.250", "2021/03/05 23:59:59.999", "2021/03/06 00:00:00"}
+		if li == 0 {
+			stamps[1], stamps[2], stamps[3], stamps[6] = "2021/03/05 00:00:00.000", "2021/03/05 12:00:00.000", "2021/03/05 23:59:59.000", "2021/03/06 00:00:00.000"
+		}
+		if li == 2 {
+			for k := range stamps {
+				if !strings.Contains(stamps[k], ".") {
+					stamps[k] += ".000000000"
+				} else {
+					stamps[k] += "999999"
+				}
+			}
+		}
+		block := func(k int) string { return fmt.Sprintf("%s:\n  food%d: %d\n", stamps[k], k, k+1) }
+		full, day := "", ""
+		order := []int{3, 0, 5, 1, 6, 4, 2}
+		for _, k := range order {
+			full += block(k)
+			if k >= 1 && k <= 5 {
+				day += block(k)
+			}
+		}
+		files := map[string]string{"food.yaml": c06Book, "log.yaml": full, "logr.yaml": day}
+		run.WriteFiles(dir, files)
+		pre := []string{"--no-color", "-d", "food.yaml", "--date-format", layout}
+		arg := stamps[2]
+		ref := run.Exec(c.HR, append(append(append([]string{}, pre...), "-l", "logr.yaml"), "summary", arg), run.ExecOpts{Dir: dir, Env: map[string]string{"TZ": "UTC"}})
+		for _, z := range zones {
+			args := append(append(append([]string{}, pre...), "-l", "log.yaml"), "summary", arg)
+			res := run.Exec(c.HR, args, run.ExecOpts{Dir: dir, Env: map[string]string{"TZ": z}})
+			c.Eval(2)
+			c.Count("runs_summary_last_second", 1)
+			c.Nontrivial("summary-last-second", z, fmt.Sprint(li))
+			// the reference run is made by the same program: also count the headings of the day directly
+			missing := ""
+			for k := range stamps {
+				has := strings.Contains(res.Out, fmt.Sprintf("food%d", k))
+				if (k >= 1 && k <= 5) != has {
+					missing += fmt.Sprintf(" food%d(%s):shown=%v", k, stamps[k], has)
+				}
+			}
+			if ref.Exit != 0 || res.Exit != ref.Exit || res.Out != ref.Out || missing != "" {
+				c.Violation("summary|last-second-of-the-day", fmt.Sprintf("summary %q under layout %q, TZ=%s: differs from the summary of the log restricted to the five headings of that calendar day (00:00:00 ... 23:59:59.999)%s", arg, layout, z, missing),
+					caseDoc{Files: files, Args: args, Env: map[string]string{"TZ": z}, Expected: resDoc(ref), Observed: resDoc(res)})
+			}
+		}
+	}
+}
+
+// c06NaturalLanguage: a bound that is neither a date in the layout nor a keyword is read as a phrase relative to
+// the clock ("2 weeks ago"); "last N units" and "N units ago" name the same instant. The log is written relative to
+// the current date, with days far from every bound, so the selection is known without knowing the time of day.
+func c06NaturalLanguage(c *core.Ctx) {
+	now := time.Now().UTC()
+	if now.Hour() == 23 && now.Minute() >= 55 || now.Hour() == 0 && now.Minute() < 2 {
+		c.Count("natural_language_skipped_near_midnight", 1)
+		return
+	}
+	today := gen.Date{Y: now.Year(), M: int(now.Month()), D: now.Day()}
+	offsets := []int{400, 100, 45, 20, 10, 5, 1}
+	var sb strings.Builder
+	for _, o := range offsets {
+		fmt.Fprintf(&sb, "%s:\n  food%d: 1\n", today.AddDays(-o).Format("2006/01/02"), o)
+	}
+	dir := filepath.Join(c.Work, "natural")
+	files := map[string]string{"log.yaml": sb.String(), "food.yaml": c06Book}
+	run.WriteFiles(dir, files)
+	for _, ph := range []struct {
+		n    int
+		unit string
+		days int // the phrase reaches this many days back (0: months/years, only the two spellings are compared)
+	}{{2, "weeks", 14}, {3, "days", 3}, {14, "days", 14}, {8, "days", 8}, {1, "week", 7}, {12, "weeks", 84}, {2, "months", 0}, {1, "year", 0}, {30, "days", 30}, {7, "days", 7}} {
+		outs := map[string]string{}
+		var argsSeen [][]string
+		for _, phrase := range []string{fmt.Sprintf("last %d %s", ph.n, ph.unit), fmt.Sprintf("%d %s ago", ph.n, ph.unit)} {
+			for _, cmd := range [][]string{{"csv", "log"}, {"reg"}} {
+				args := append([]string{"--no-color", "-d", "food.yaml", "-l", "log.yaml", "-b", phrase}, cmd...)
+				res := run.Exec(c.HR, args, run.ExecOpts{Dir: dir, Env: map[string]string{"TZ": "UTC"}})
+				c.Eval(1)
+				c.Count("runs_natural_language_bounds", 1)
+				c.Nontrivial("natural", phrase, cmd[0])
+				argsSeen = append(argsSeen, args)
+				key := cmd[0]
+				if prev, ok := outs[key]; ok && (prev != res.Out || res.Exit != 0) {
+					c.Violation(strings.Join(cmd, " ")+"|natural-language-bound", fmt.Sprintf("-b %q and -b %q select different days", fmt.Sprintf("last %d %s", ph.n, ph.unit), phrase),
+						caseDoc{Files: files, Args: args, Note: "the log is written relative to the current date", Expected: prev, Observed: resDoc(res)})
+				}
+				outs[key] = res.Out
+				if ph.days > 0 && cmd[0] == "csv" {
+					bad := ""
+					for _, o := range offsets {
+						shown := strings.Contains(res.Out, fmt.Sprintf("food%d,", o))
+						if o != ph.days && shown != (o < ph.days) {
+							bad += fmt.Sprintf(" food%d(%d days back):shown=%v", o, o, shown)
+						}
+					}
+					if bad != "" || res.Exit != 0 {
+						c.Violation("csv log|natural-language-bound", fmt.Sprintf("-b %q: exit %d,%s", phrase, res.Exit, bad), caseDoc{Files: files, Args: args, Note: "the log is written relative to the current date", Observed: resDoc(res)})
+					}
+				}
+			}
+		}
+		_ = argsSeen
 	}
 }
 
